@@ -35,6 +35,9 @@ def validate(trace_path, nevents):
     return vf.tlc_validate("StoreTrace", "StoreTrace.cfg", trace_path, nevents=nevents, timeout=3000, heap="12g")
 
 
+EXTRA_PREDS = {"delay-enforced", "delay-state"}
+
+
 def run_store(pid, tier, *, profiles, preds, res_filter, mc_depth, gen_depth, rnd, level_text, assumptions, pred_doc, rpc=None):
     """profiles: list of StoreMC profiles ; preds: predicate names of StoreTrace that belong to the
     property ; res_filter(cmd) -> bool says for which commands the generic "res" predicate counts ;
@@ -50,6 +53,8 @@ def run_store(pid, tier, *, profiles, preds, res_filter, mc_depth, gen_depth, rn
     n_beh = n_events = 0
     samples = []
     pred_hits = {}
+    extra_hits = {}
+    n_delay_steps = 0
     nontrivial = set()
     try:
         for prof in profiles:
@@ -95,6 +100,7 @@ def run_store(pid, tier, *, profiles, preds, res_filter, mc_depth, gen_depth, rn
             n_beh += meta["behaviours"]
             n_events += meta["events"]
             rows = vf.read_ndjson(tp)
+            n_delay_steps += sum(1 for e in rows if e["post"].get("delayed"))
             if len(samples) < 4:
                 k = min(len(rows) - 1, 7)
                 samples.append({"source": name, "cmd": rows[k]["cmd"], "impl_result": rows[k]["res"], "accepted_by_tlc": True})
@@ -104,6 +110,8 @@ def run_store(pid, tier, *, profiles, preds, res_filter, mc_depth, gen_depth, rn
                     if nm == "res" and not res_filter(cmd):
                         continue
                     if nm != "res" and nm not in preds:
+                        if nm in EXTRA_PREDS:
+                            extra_hits[nm] = extra_hits.get(nm, 0) + 1
                         continue
                     pred_hits[nm] = pred_hits.get(nm, 0) + 1
                     sig = "%s:%s:%s" % (pid, nm, cmd_kind(cmd))
@@ -128,6 +136,10 @@ def run_store(pid, tier, *, profiles, preds, res_filter, mc_depth, gen_depth, rn
             "model_check": cov["mc"], "generation": cov["gen"], "random": cov["random"], "rpc_endpoint_level": cov.get("rpc", []),
             "predicates": sorted(preds), "predicate_doc": pred_doc,
             "rejected_steps_by_predicate": pred_hits,
+            # behaviour the specification models beyond the listed properties (lock delay: Store!EndpointApply / DelayExpires):
+            # conformance is evaluated on the same traces and reported here, it never produces a VIOLATION line
+            "beyond_listed_properties": {"predicates": sorted(EXTRA_PREDS), "rejected_steps": extra_hits,
+                                         "steps_with_open_lock_delay_window": n_delay_steps},
             "known_findings_matched": verdict.known_hit,
             "exhaustive": False,
         }
